@@ -23,10 +23,10 @@ ROWS = {
     10: "memory send(), buffer has room", 11: "memory send(), receiver waiting", 12: "memory receive(), buffer has items",
     13: "memory receive(), sender waiting", 14: "to_thread.run_sync()", 15: "TaskHandle.wait() on finished task",
     16: "await TaskHandle of finished task", 17: "Future.wait() on finished future",
-    18: "functools.reduce() with zero callback calls", 19: "await Future (finished)", 20: "await Future (failed)",
+    18: "functools.reduce() over a non-empty input with a reducer that never yields", 22: "functools.reduce() with zero callback calls", 19: "await Future (finished)", 20: "await Future (failed)",
     21: "Condition.wait() in a cancelled scope, another task queued on the lock", 30: "Lock.acquire(fast_acquire=True)", 31: "acquire_nowait()",
 }
-CHECKED = [1, 2, 3, 4, 5, 6, 7, 8, 10, 11, 12, 13, 14, 15, 16, 17, 18, 19, 20]
+CHECKED = [1, 2, 3, 4, 5, 6, 7, 8, 10, 11, 12, 13, 14, 15, 16, 17, 18, 19, 20, 22]
 
 
 async def run_row(row: int, cancelled: bool):
@@ -171,13 +171,27 @@ async def run_row(row: int, cancelled: bool):
             except BaseException:        # FutureFailed: the future's own outcome, delivered after the checkpoint
                 return None
         op = aw
-    elif row == 18:
+    elif row in (18, 22):
         from anyio.functools import reduce
 
-        async def add(a, b):
+        async def add(a, b):             # never yields to the event loop
             effect["n"] += 1
             return a + b
-        op = lambda: reduce(add, [], 5)  # noqa: E731
+
+        class CountingIter:
+            def __init__(self, items):
+                self.it = iter(items)
+
+            def __iter__(self):
+                return self
+
+            def __next__(self):
+                v = next(self.it)        # StopIteration at the end is not a consumption
+                effect["n"] += 1
+                return v
+        src = CountingIter([1, 2, 3] if row == 18 else [])
+        op = lambda: reduce(add, src, 5)  # noqa: E731
+        check_effect = lambda: int(effect["n"] > 0)  # noqa: E731  (elements consumed or callback calls)
 
     ran = []
     raised = False
@@ -240,7 +254,7 @@ def check(tier: str) -> int:
     rep = core.Report("C08", tier)
     rep.assumptions = core.TRUSTED_BASE_COMMON + [
         "the shape table prims/FastPath.v: 13 rows are regenerated from /repo's source on every run by the fail-closed translator tools/translate_fastpath.py and proved equal to the table (FastPathGenEq.v); all rows are additionally validated against the real operations on stock asyncio, eager task factory and uvloop",
-        "functools.reduce delegates its checkpoint to the awaited callback whenever the callback is invoked (documented scope); only the zero-invocation case is a table row",
+        "functools.reduce: rows 18 (non-yielding reducer over a non-empty input) and 22 (zero invocations); before the F22 fix reduce delegated its checkpoint to the awaited callback",
         "states in which the operation must really wait are governed by C03",
     ]
     # tie T: regenerate the shapes from the source (fail-closed); a refusal leaves a FastPathGen.v that does not compile
@@ -315,6 +329,14 @@ def check(tier: str) -> int:
     for w, msg in shits[:2]:
         small = scommon.shrink("C08", w.ops)
         rep.violation(msg, {"kind": "monitor", "ops": small, "ops_readable": sgen.readable(small)})
+    # itertools clause (props/C08_itertools.v): tee with copy ops against the tee LTS, per-consumer checkpoint monitor,
+    # first __anext__ in a cancelled scope, every iterator function on tiny inputs - implemented in harness/c19.py
+    import c19
+    it_part = c19.c08_itertools_part(tier)
+    for msg, replay in it_part["hits"][:3]:
+        rep.violation(msg, replay)
+    rep.coverage["itertools_clause"] = it_part["coverage"]
+
     tie = []
     if not proofs_ok:
         tie.append("proof obligation: " + str(rep.coverage.get("proof_failure", {}).get("where")))
@@ -323,7 +345,8 @@ def check(tier: str) -> int:
             f"{ROWS[m[1]]} ({'cancelled' if m[2] else 'live'}, {m[0]}): observed {e}, shape says {o}" for m, c, e, o in disagreements[:3]))
     if sdis:
         tie.append("correspondence Machine.run_case vs AnyIO on checkpoint-heavy programs")
-    if tie and not hits and not shits:
+    tie += it_part["tie_broken"]
+    if tie and not hits and not shits and not it_part["hits"]:
         rep.violation("; ".join(tie), {"kind": "tie", "broken": tie, "case": (sdis[0] if sdis else None)}, no_input=True)
 
     rep.coverage.update({
